@@ -297,7 +297,10 @@ def step2 (s : St) (name : String) (flags : List String) (vs : List (List Float)
                ("cosW_spec", rabs (gr * gr * A * B - sab * sab) ≤ pow2neg 30 * (A * B)),
                ("cosW_spec", (gr ≥ 0) == (sab ≥ 0) || rabs gr ≤ pow2neg 20)]
             | none => [("cosW_spec", false)]
-          else []
+          else
+            -- a clearly negative weighted sum of squares (negative weights): sqrt gives NaN
+            let sa := Spec.dotW a a (w.map rabs); let sb := Spec.dotW b b (w.map rabs)
+            if A < -(tolAcc * sa) || B < -(tolAcc * sb) then [("cosW_negative_nan", g.isNaN)] else []
         | _, _, _ => [])
   | "kron" =>
     (s, showV (VecTools.kroneckerMult v0 v1), onVec impl "kroneckerMult_spec" fun g =>
@@ -706,11 +709,19 @@ def step (s : St) (op : List String) (impl : Option (List String)) : St × Strin
   | "normw" =>
     (s, showRes showF (VecTools.normW v0 v1), dimOr v0 v1 fun _ => onScalar impl "norm_spec" fun g =>
       match rats? v0, rats? v1, floatToRat? g with
+      | some a, some w, none =>
+        -- a clearly negative weighted sum of squares: sqrt of a negative number is NaN
+        let q := Spec.dotW a a w
+        let sc := Spec.dotW a a (w.map rabs)
+        if q < -(tolAcc * sc) then [("normW_negative_nan", g.isNaN)] else []
       | some a, some w, some gr =>
         if w.all (· ≥ 0) then
           let q := Spec.dotW a a w
           [("norm_spec", gr ≥ 0 && rabs (gr * gr - q) ≤ tolAcc * q + pow2neg 500)]
-        else []
+        else
+          let q := Spec.dotW a a w
+          let sc := Spec.dotW a a (w.map rabs)
+          if q > tolAcc * sc then [("normW_spec", gr ≥ 0 && rabs (gr * gr - q) ≤ tolAcc * sc + pow2neg 500)] else []
       | _, _, _ => [])
   | "cos" =>
     (s, showRes showF (VecTools.cos v0 v1), dimOr v0 v1 fun _ => onScalar impl "cos_range" fun g =>
